@@ -12,7 +12,7 @@ SPEC = dict(
           "of another chain was deleted: a Lean theorem about the concrete line-parser model (induction over lines; a skipped record "
           "leaves the bookkeeping state untouched; TER/MODEL and all other records are never deleted), with the blank-chain case. "
           "The parser model is compared field by field with get_atom_lines_from_pdb; the metamorphic relation is run on the real "
-          "pipeline (all group records and the .pka text); every read of options.chains is traced to its call site.",
+          "pipeline (all group records and the .pka text); every read of options.chains is traced to its call site. program_chain_selection (Props/Program.lean) lifts the parser theorem to Program.run: with a selection, every atom, hydrogen, group, determinant and pKa of every conformation is that of the run without the option on the file with the other chains deleted; Program.run is compared with the real program on this check's texts under -c.",
     note="Theorem hypothesis: ATOM/HETATM records reach at least column 22 (shorter records raise IndexError with a selection and "
          "ValueError without - compared by the harness as 'error' only). That the option is read nowhere but in read_pdb is "
          "established dynamically (traced reads), not by a theorem.",
